@@ -52,7 +52,12 @@ def iface_sweep(ck):
             if cls in seen:
                 continue
             seen.add(cls)
-            ck.violation({"kind": "stage-interface-not-preserved", "what": what, "wgsl": un(m.group(2)) if m else None,
+            fid = None
+            for kf in ck.known:
+                wr = kf.get("match", {}).get("what_regex")
+                if wr and re.search(wr, what):
+                    fid = kf["id"]
+            ck.violation({"kind": "stage-interface-not-preserved", "finding": fid, "what": what, "wgsl": un(m.group(2)) if m else None,
                           "emitted": un(m.group(3))[:5000] if m else None,
                           "how": "the emitted text is unreadable (nameless parameter, empty member reference …) or the user locations "
                                  "on the input / output side of the entry point differ from the WGSL declaration"}, found_input=True)
